@@ -86,6 +86,29 @@ def run(O, P):
         rng = random.Random("%s/c01x/%d" % (O.seed, i))
         cfg = F.config_variants(rng) if rng.random() < 0.25 else vlib.default_config()
         cs.append({"id": "c01x-%d" % i, "config": cfg, "calls": [{"code": execgen.program("%s/c01" % O.seed, i), "file": "exec.js"}], "opts": {}})
+    # the shape catalogue, executed: every function `f` of a catalogue program is called with observable arguments
+    import catalogue
+    ncat = 500 if O.tier == "quick" else 6000
+    kept = 0
+    for i, code in enumerate(catalogue.catalogue("%s/c01catx" % O.seed, 4 * ncat)):
+        if kept >= ncat:
+            break
+        if not code.lstrip("'\"; usectrilnoe").startswith("function f(a,b,o,k,r,q,x,y,z,i,arr){") or "super" in code or "await" in code or "yield" in code:
+            continue
+        # the source text of a function is observable (Function.prototype.toString) and the rewriter normalises arrow bodies:
+        # programs that can coerce a function to a string are left to the tree-level checks
+        if "=>" in code or code.count("function") > 1 or "class " in code:
+            continue
+        # loops on an (always truthy) observable run until the time limit: their logs are cut at arbitrary points;
+        # written .call/.apply on an observable path falls under the property's exemption (path read vs this-argument order)
+        if "while" in code or "for (" in code or ".call(" in code or ".apply(" in code:
+            continue
+        # the catalogue's operand `f()` must be the observable `f`, not a recursive call of the function under test
+        code = code.replace("function f(a,b,o,k,r,q,x,y,z,i,arr){", "function F0(a,b,o,k,r,q,x,y,z,i,arr){", 1)
+        kept += 1
+        main = ("\nfunction main() { var R = []; try { R.push(F0.call(o, a, b, o, k, r, q, x, y, z, i, arr)); } catch (e) { R.push('T:' + (e && e.constructor && e.constructor.name)); }"
+                " try { R.push(F0.call(o, str, 'lit', o, 'p', [str], q, str, str, z, 1, arr)); } catch (e) { R.push('T:' + (e && e.constructor && e.constructor.name)); } return R; }\n")
+        cs.append({"id": "c01catx-%d" % i, "config": vlib.default_config(), "calls": [{"code": code + main, "file": "catx.js"}], "opts": {}})
     for k in C.known_for("C01") + C.fixed_for("C01"):
         w = k["witness"]
         if "main" in w["code"] or "result" in w["code"]:
